@@ -2,7 +2,7 @@
 """Seeded-change tooling.
   seed.py verify <src-dir> <name>     verify a sub-agent deliverable in a fresh scratch worktree and, if it holds,
                                       keep it as /verif/seeded/<name>/ (patch.diff, demo, meta.json with what was run)
-  seed.py check <name> <prop> [tier]  apply seeded/<name>/patch.diff to /repo, run the property's check, undo
+  seed.py check <name> <prop> [tier] [job]  apply seeded/<name>/patch.diff in a scratch worktree, run the property's check on it (VERIF_REPO)
 """
 import json, os, re, shutil, subprocess, sys, tempfile, time
 ROOT = os.path.dirname(os.path.dirname(os.path.abspath(__file__)))
@@ -81,29 +81,37 @@ def verify(src, name):
     print('kept as', dst)
     return 0
 
-def check(name, prop, tier='quick'):
+def check(name, prop, tier='quick', job=''):
+    """Applies the seeded patch in a scratch worktree of /repo (never in /repo itself) and runs the
+    registered check against it through VERIF_REPO."""
     d = os.path.join(ROOT, 'seeded', name)
-    rc, out = sh('git -C /repo status --porcelain')
-    if out.strip():
-        print('/repo is not clean'); return 2
-    rc, out = sh('git -C /repo apply %s' % os.path.join(d, 'patch.diff'))
+    wt = tempfile.mkdtemp(prefix='sc-', dir='/tmp')
+    os.rmdir(wt)
+    rc, out = sh('git -C /repo worktree add -q --detach %s HEAD' % wt)
     if rc:
-        print('patch does not apply:', out); return 2
+        print(out); return 2
     try:
+        rc, out = sh('git apply %s' % os.path.join(d, 'patch.diff'), cwd=wt)
+        if rc:
+            print('patch does not apply:', out); return 2
         t0 = time.time()
-        rc, out = sh('VERIF_ROOT=%s %s/bin/gosym check --property %s --tier %s' % (ROOT, ROOT, prop, tier), cwd=ROOT)
+        extra = (' --job %s' % job) if job else ''
+        rc, out = sh('VERIF_REPO=%s VERIF_ROOT=%s %s check --property %s --tier %s%s' % (wt, ROOT, os.environ.get('GOSYM_BIN', ROOT + '/bin/gosym'), prop, tier, extra), cwd=ROOT)
         print(out.strip())
         verdict = {0: 'MISSED', 1: 'CAUGHT', 2: 'INFRA'}.get(rc, str(rc))
-        print('seed=%s property=%s tier=%s -> exit %d %s (%.0fs)' % (name, prop, tier, rc, verdict, time.time() - t0))
+        print('seed=%s property=%s tier=%s%s -> exit %d %s (%.0fs)' % (name, prop, tier, extra, rc, verdict, time.time() - t0))
         res_path = os.path.join(d, 'results.json')
         res = json.load(open(res_path)) if os.path.exists(res_path) else {}
-        res['%s/%s' % (prop, tier)] = {'exit': rc, 'verdict': verdict, 'lines': [l for l in out.splitlines() if l.startswith(('VIOLATION', 'INFRA', 'KNOWN', '  job='))][:6]}
+        key = '%s/%s' % (prop, tier) + (('/' + job) if job else '')
+        res[key] = {'exit': rc, 'verdict': verdict, 'lines': [l for l in out.splitlines() if l.startswith(('VIOLATION', 'INFRA', 'KNOWN', '  job='))][:6]}
         json.dump(res, open(res_path, 'w'), indent=1)
         return rc
     finally:
-        sh('git -C /repo checkout -- .')
-        # evidence files were rewritten by the run on a mutated tree: restore the committed ones
-        sh('git -C %s checkout -- evidence' % ROOT)
+        sh('git -C /repo worktree remove --force %s' % wt)
+        shutil.rmtree(wt, ignore_errors=True)
+        if not job:
+            # evidence files were rewritten by the run on a mutated tree: restore the committed ones
+            sh('git -C %s checkout -- evidence' % ROOT)
 
 if __name__ == '__main__':
     if sys.argv[1] == 'verify':
